@@ -560,6 +560,15 @@ func corrProg(o corrOpts) *res.Summary {
 			bySpec[sp.o.Root] = sp
 		}
 		src := srcLine(dir)
+		if o.extra["xpkg"] == "1" {
+			noIgnore := map[string]bool{}
+			for _, sp := range specs {
+				if !sp.impl && !sp.o.Ignores {
+					noIgnore[sp.o.Root] = true
+				}
+			}
+			xpkgCheck(sum, dir, outs, noIgnore, cfg)
+		}
 		for _, oc := range outs {
 			root := ""
 			if parts := strings.Split(oc.pkgID, "/"); len(parts) > 1 {
@@ -678,4 +687,78 @@ func decodeImplKeys(keys []string) []string {
 		out = append(out, strings.Join(p, ":"))
 	}
 	return out
+}
+
+var probeRe = regexp.MustCompile(`/\*@probe:([^:*]+):(\d+)\*/`)
+
+// xpkgCheck (C06): the labelled probe statements over a type get the same IMM / CTOR / TONL02 / TONL03 codes in the
+// declaring package and in every package that imports it directly (implementation against itself; programs without
+// @ignore comments only, where nothing but the annotations decides).
+func xpkgCheck(sum *res.Summary, dir string, outs []progOutcome, roots map[string]bool, cfg progCfg) {
+	// labels per package directory, from the sources
+	type site struct {
+		file string
+		line int
+	}
+	labels := map[string]map[string]site{} // pkg dir -> label -> site
+	filepath.Walk(dir, func(path string, info os.FileInfo, err error) error {
+		if err != nil || info.IsDir() || !strings.HasSuffix(path, ".go") || strings.HasSuffix(path, "_test.go") || strings.Contains(filepath.Base(path), "testdata") {
+			return nil
+		}
+		rel, _ := filepath.Rel(dir, path)
+		if !roots[strings.SplitN(rel, string(os.PathSeparator), 2)[0]] {
+			return nil
+		}
+		b, _ := os.ReadFile(path)
+		for i, l := range strings.Split(string(b), "\n") {
+			if m := probeRe.FindStringSubmatch(l); m != nil {
+				d := filepath.Dir(rel)
+				if labels[d] == nil {
+					labels[d] = map[string]site{}
+				}
+				labels[d][m[1]+":"+m[2]] = site{rel, i + 1}
+			}
+		}
+		return nil
+	})
+	// codes per (file, line)
+	codesAt := map[string][]string{}
+	for _, oc := range outs {
+		if strings.Contains(oc.pkgID, "[") {
+			continue
+		}
+		for _, k := range oc.impl {
+			loc := strings.Split(oc.implLoc[k], ":")
+			code := k[strings.IndexByte(k, ':')+1:]
+			if len(loc) >= 2 && (strings.HasPrefix(code, "IMM") || strings.HasPrefix(code, "CTOR") || code == "TONL02" || code == "TONL03") {
+				key := loc[0] + ":" + loc[1]
+				codesAt[key] = append(codesAt[key], code)
+			}
+		}
+	}
+	src := srcLine(dir)
+	get := func(s site) string {
+		l := append([]string(nil), codesAt[fmt.Sprintf("%s:%d", s.file, s.line)]...)
+		sort.Strings(l)
+		return strings.Join(l, "+")
+	}
+	for d, ls := range labels {
+		for lab, s := range ls {
+			declPath := lab[:strings.LastIndex(lab[:strings.LastIndexByte(lab, ':')], ".")]
+			declDir := strings.TrimPrefix(declPath, "exp/")
+			if declDir == d {
+				continue
+			}
+			ds, ok := labels[declDir][lab]
+			if !ok {
+				continue
+			}
+			sum.Count("probe-comparisons")
+			if a, b := get(ds), get(s); a != b {
+				sum.Disagree(res.Disagreement{Kind: "impl-vs-spec", Input: fmt.Sprintf("prog xpkg %s in %s vs %s [%s]", lab, declDir, d, cfg.String()), Impl: fmt.Sprintf("importer %s:%d => [%s]", s.file, s.line, b), Model: fmt.Sprintf("declaring package %s:%d => [%s]", ds.file, ds.line, a),
+					Clause:  "C06: every kind of annotation takes effect in importers exactly as in the declaring package (GGV.Props.C06.importer_as_declarer)",
+					Details: "the same statement over the same type, outside constructors and @testonly functions, without @ignore comments: `" + strings.TrimSpace(src(fmt.Sprintf("%s:%d", s.file, s.line))) + "`"})
+			}
+		}
+	}
 }
